@@ -7,7 +7,7 @@
     The change strategy is an arbitrary function ([change]); no conservation property of it is
     assumed — the balance of a step is what Step::from_parts checks. *)
 From V.Lib Require Import Base.
-From V.C08 Require Import Sql Model Spec Corr Wf ProofsSql ProofsSel ProofsProp ProofsGreedy ProofsAnchor ProofsSeq Bridge.
+From V.C08 Require Import Sql Model ModelT Spec Corr Wf ProofsSql ProofsSel ProofsProp ProofsGreedy ProofsAnchor ProofsSeq ProofsT Bridge.
 From V.Gen Require Import C08SqlPred.
 Local Open Scope Z_scope.
 
@@ -132,7 +132,7 @@ Theorem C08_proposal_sound :
   /\ forall s, In s steps ->
        exists a inputs,
          s_anchor s = Some a /\ s_inputs s = rrefs inputs /\ NoDup (rrefs inputs)
-         /\ s_in_value s = sum_values inputs /\ s_tin s = 0 /\ s_pay s = pay /\ step_balanced s = true
+         /\ s_in_value s = sum_values inputs /\ s_tins s = [] /\ s_pay s = pay /\ step_balanced s = true
          /\ forall r, In r inputs ->
               In r db /\ input_ok acct (e_target e) a pol (overridable (LFPolicy lp)) permitted r.
 Proof. exact proposal_inputs_at_step_anchor. Qed.
@@ -218,6 +218,59 @@ Theorem C08_propose_never_panics : forall change fuel db e tip acct pay sp oo pe
   propose_transfer change fuel db e tip acct pay sp oo permitted pol lp lock canon <> Panic.
 Proof. exact propose_transfer_no_panic. Qed.
 
+(** *** Transparent inputs (coins) *)
+
+(** The regenerated WHERE clause of spendable_transparent_outputs_query (as instantiated by
+    get_spendable_transparent_outputs_for_addresses) is Spec.utxo_spendable: received at one of the
+    requested addresses, worth more than the marginal fee, confirmed (or unexpired with zero
+    required confirmations), unspent at the target height, not a likely-spent ephemeral output,
+    coinbase-mature, passing the coinbase filter, not locked by another owner, spendable key. *)
+Theorem C08_utxo_where_is_spec : forall q lf u,
+  utxo_passes q lf u
+  = utxo_spendable (uq_target q) (uq_minconf q) (uq_filter q) (uq_addrs q)
+      (match lf with LFUnfiltered => None | LFPolicy _ => Some (uq_owners q) end) u.
+Proof. exact utxo_where_spec. Qed.
+
+Theorem C08_utxo_selected_spendable : forall udb target addrs pol zc f lf u,
+  In u (select_utxos udb target addrs pol zc f lf) ->
+  In u udb /\ utxo_spendable target (minconf pol zc) f addrs (owners_opt lf) u = true.
+Proof. exact select_utxos_sound. Qed.
+
+Theorem C08_utxo_select_nodup : forall udb target addrs pol zc f lf,
+  NoDup (map u_id udb) -> NoDup (map u_id (select_utxos udb target addrs pol zc f lf)).
+Proof. exact select_utxos_nodup. Qed.
+
+(** A shielding proposal (any change strategy) is one step with no shielded input whose
+    transparent inputs are distinct spendable outputs of the wallet at the requested addresses;
+    its value is their sum, it is non-zero, balances (inputs = change + fee), meets the threshold
+    and binds the wallet's anchor. *)
+Theorem C08_shielding_sound : forall change udb e tip threshold addrs pol zc f lp iw lock steps,
+  NoDup (map u_id udb) ->
+  propose_shielding change udb e tip threshold addrs pol zc f lp iw lock = Ok steps ->
+  exists s, steps = [s] /\ shield_ok udb e threshold addrs pol zc f lp s.
+Proof. exact propose_shielding_sound. Qed.
+
+Theorem C08_bridge_tselect : forall udb target addrs pol zc f lf obs,
+  wf_case (CTSelect udb target addrs pol zc f lf obs) = true ->
+  run_case (CTSelect udb target addrs pol zc f lf obs) = true ->
+  prop_case (CTSelect udb target addrs pol zc f lf obs) = true.
+Proof. exact bridge_tselect. Qed.
+
+Theorem C08_bridge_shield : forall udb e threshold addrs pol zc f lp iw lock oracle obs,
+  wf_case (CShield udb e threshold addrs pol zc f lp iw lock oracle obs) = true ->
+  run_case (CShield udb e threshold addrs pol zc f lp iw lock oracle obs) = true ->
+  prop_case (CShield udb e threshold addrs pol zc f lp iw lock oracle obs) = true.
+Proof. exact bridge_shield. Qed.
+
+Example C08_nonvacuous_shield :
+  propose_shielding (fun l => TBal [(CP Sapling, 185000)] 15000)
+    [U 1 0 0 0 100000 (Some 100) None None None true false false None None [] 0;
+     U 2 0 0 0 100000 (Some 101) None None None true false false (Some 200) (Some 2) [] 1;
+     U 3 0 0 0 100000 (Some 102) None None None true false false None None [] 2]
+    (Env 112 (Some 111) []) (Some 111) 1000 [0] (Pol 1 1) true CbAll LExclude false None
+  = Ok [Step [] 200000 [1; 3] 0 [(CP Sapling, 185000)] 15000 (Some 111)].
+Proof. vm_compute. reflexivity. Qed.
+
 (** *** Non-vacuity: a wallet with two notes, one locked by owner 2 *)
 Definition ex_db : list note_row :=
   [ R 1 0 Sapling 60000 (Some 100) (Some 100) None 100 true (Some 0) true (Some 0) false false (Some 10) None false None None [];
@@ -233,7 +286,7 @@ Proof. vm_compute. reflexivity. Qed.
 Example C08_nonvacuous_propose :
   propose_transfer (fun _ l => match l with [] => OInsuff 30000 | _ => OBal [(CP Sapling, 30000)] 10000 end) 8
     ex_db ex_env (Some 111) 0 20000 true false [Sapling; Orchard] (Pol 1 1) LExclude None None
-  = Ok [Step [(Sapling, 1)] 60000 0 20000 [(CP Sapling, 30000)] 10000 (Some 111)].
+  = Ok [Step [(Sapling, 1)] 60000 [] 20000 [(CP Sapling, 30000)] 10000 (Some 111)].
 Proof. vm_compute. reflexivity. Qed.
 
 (** A canonical ZIP 318 crossing: grid of 12 blocks, NU6.3 active from 100; one Orchard note mined
@@ -246,7 +299,7 @@ Example C08_nonvacuous_canonical :
   /\ propose_transfer (fun a l => match l with [] => OInsuff 1015000 | _ => OBal [(CP Orchard, 185000)] 15000 end) 8
        ex_db2 (Env 160 (Some 159) []) (Some 159) 0 1000000 true true [Sapling; Orchard] (Pol 1 1) LExclude None
        (Some (CI 12 100 144 true (Some 144) (Some 15000)))
-     = Ok [Step [(Orchard, 2)] 1200000 0 1000000 [(CP Orchard, 185000)] 15000 (Some 144)].
+     = Ok [Step [(Orchard, 2)] 1200000 [] 1000000 [(CP Orchard, 185000)] 15000 (Some 144)].
 Proof. vm_compute. split; reflexivity. Qed.
 
 Example C08_nonvacuous_lock :
